@@ -1,5 +1,151 @@
-import TuModel.Model.Pipe
+/-
+  C09 — abandoning never wedges the loader: bounded lookahead, prompt stop.
+  Models: `Tu.pstep` (threaded `Pipe`) and `Tu.bstep` (`Buffered` producer), Model/Pipe.lean.
+-/
+import TuModel.Lemmas.PipeProg
+import TuModel.Lemmas.BufL
 namespace Tu.C09
 open Tu
-theorem placeholder_init_next (W n : Nat) : (PState.init W n).next = 0 := rfl
+set_option linter.unusedVariables false
+
+/-- while the consumer is there, workers pull at most `2 * W` items ahead of what was consumed -/
+theorem pipe_lookahead (W n : Nat) (hW : 1 ≤ W) (s : PState) (h : PReach W n s) (hd : s.dropped = false) :
+    s.next ≤ s.recvd.length + 2 * W := by
+  have hi := inv_reach h
+  have hcount := hi.count
+  have hbusy := sum_range_le (fun u => (s.pc u).busy) 1 (fun u => by cases s.pc u <;> simp [PC.busy]) W
+  have hcl := hi.chan_le
+  have hL : s.turn ≤ (s.recvd ++ s.chan).length := by
+    rcases hi.len_turn hd with hl | ⟨u, ok, hu, hpc⟩
+    · omega
+    · have := hi.len_sent hd u _ ok hu hpc; omega
+  rw [List.length_append] at hL
+  omega
+
+/-- after the consumer dropped the iterator no worker takes more than one further item:
+`next + takesLeft` never grows, and `takesLeft ≤ W` -/
+theorem pipe_drop_stops (W n : Nat) (hW : 1 ≤ W) (s s' : PState) (a : PAction) (h : PReach W n s)
+    (hd : s.dropped = true) (hs : pstep s a = some s') :
+    s'.dropped = true ∧ s'.next + takesLeft s' ≤ s.next + takesLeft s ∧ takesLeft s ≤ W := by
+  obtain ⟨h1, h2⟩ := drop_step hd hs
+  have := takesLeft_le s
+  rw [(inv_reach h).hW] at this
+  exact ⟨h1, h2, this⟩
+
+/-- after `drop`, while some worker has not exited, a measure-decreasing step of a *worker* is enabled
+(the consumer's actions are all disabled after `drop`) -/
+theorem pipe_drop_exits_worker (W n : Nat) (hW : 1 ≤ W) (s : PState) (h : PReach W n s)
+    (hd : s.dropped = true) (hne : allExited s = false) :
+    ∃ a s', a ≠ PAction.drop ∧ a ≠ PAction.recv ∧ a ≠ PAction.close ∧
+      pstep s a = some s' ∧ pmeasure s' < pmeasure s := by
+  have hi := inv_reach h
+  have : ∃ w, w < W ∧ s.pc w ≠ .exited := by
+    apply Classical.byContradiction
+    intro hcon
+    have : allExited s = true := by
+      rw [allExited_iff, hi.hW]
+      intro w hw
+      apply Classical.byContradiction
+      intro hne
+      exact hcon ⟨w, hw, hne⟩
+    rw [this] at hne; cases hne
+  obtain ⟨w, hw, hpc⟩ := this
+  exact worker_progress hi hw hpc (Or.inl hd)
+
+/-- … and every worker eventually exits: while some worker has not exited, a worker step that
+decreases the measure is enabled (nothing can block any more: sends fail immediately) -/
+theorem pipe_drop_exits (W n : Nat) (hW : 1 ≤ W) (s : PState) (h : PReach W n s) (hd : s.dropped = true)
+    (hne : allExited s = false) : ∃ a s', pstep s a = some s' ∧ pmeasure s' < pmeasure s := by
+  obtain ⟨a, s', _, _, _, hs, hm⟩ := pipe_drop_exits_worker W n hW s h hd hne
+  exact ⟨a, s', hs, hm⟩
+
+/-! ### `Buffered` -/
+
+/-- `Buffered`: bounded lookahead while the consumer is there … -/
+theorem buffered_lookahead (B n : Nat) (s : BufState) (h : BReach B n s) (hd : s.dropped = false) :
+    s.pulled ≤ s.recvd.length + B + 1 := by
+  have hi := binv_reach h
+  have hf := congrArg List.length (hi.fifo hd)
+  have hcl := hi.chan_le
+  have hp : s.pc.pend.length ≤ 1 := by cases s.pc <;> simp [BPC.pend]
+  simp only [List.length_append, List.length_range] at hf
+  omega
+
+/-- … and after a drop at most one more item is pulled, and the producer is never blocked -/
+theorem buffered_drop_stops (B n : Nat) (s s' : BufState) (a : BAction) (h : BReach B n s)
+    (hd : s.dropped = true) (hs : bstep s a = some s') :
+    s'.dropped = true ∧ s'.pulled + (if s'.pc = BPC.idle then 1 else 0) ≤ s.pulled + (if s.pc = BPC.idle then 1 else 0) := by
+  cases a with
+  | pull =>
+    simp only [bstep] at hs
+    split at hs
+    · rename_i hpc
+      split at hs
+      · injection hs with hs; subst hs
+        refine ⟨hd, ?_⟩
+        dsimp only; rw [if_pos hpc]; simp
+      · injection hs with hs; subst hs
+        refine ⟨hd, ?_⟩
+        dsimp only; rw [if_pos hpc]; simp
+    · cases hs
+  | send =>
+    simp only [bstep] at hs
+    split at hs
+    · rename_i i hpc
+      rw [if_pos hd] at hs
+      injection hs with hs; subst hs
+      refine ⟨hd, ?_⟩
+      dsimp only; rw [hpc]; simp
+    · cases hs
+  | recv => simp [bstep, hd] at hs
+  | close => simp [bstep, hd] at hs
+  | drop => simp [bstep, hd] at hs
+
+theorem buffered_drop_exits (B n : Nat) (s : BufState) (h : BReach B n s) (hd : s.dropped = true)
+    (hne : s.pc ≠ BPC.exited) : ∃ a s', (a = BAction.pull ∨ a = BAction.send) ∧ bstep s a = some s' := by
+  cases hpc : s.pc with
+  | idle =>
+    by_cases hlt : s.pulled < s.n
+    · exact ⟨.pull, { s with pc := .have s.pulled, pulled := s.pulled + 1 }, Or.inl rfl, by
+        simp only [bstep, hpc, if_true, if_pos hlt]⟩
+    · exact ⟨.pull, { s with pc := .exited }, Or.inl rfl, by
+        simp only [bstep, hpc, if_true, if_neg hlt]⟩
+  | «have» i =>
+    refine ⟨.send, { s with pc := .exited }, Or.inr rfl, ?_⟩
+    simp only [bstep, hpc, hd, if_true]
+  | exited => exact absurd hpc hne
+
+/-- complete iteration of `Buffered`: exactly the upstream sequence -/
+theorem buffered_complete (B n : Nat) (s : BufState) (h : BReach B n s) (hc : s.closed = true) :
+    s.recvd = List.range n := by
+  have hi := binv_reach h
+  obtain ⟨hpc, hch, hd⟩ := hi.closed_ hc
+  have hf := hi.fifo hd
+  rw [hpc, hch, hi.exited_ hd hpc] at hf
+  simpa [BPC.pend] using hf
+
+/-! non-vacuity -/
+
+/-- run a schedule of the `Buffered` model -/
+def brun (s : BufState) : List BAction → Option BufState
+  | [] => some s
+  | a :: as => match bstep s a with
+    | some s' => brun s' as
+    | none => none
+
+example : (brun (BufState.init 1 2) [.pull, .send, .pull, .recv, .send, .pull, .recv, .close]).map
+    (fun s => (s.recvd, s.closed, s.pulled)) = some ([0, 1], true, 2) := by decide
+/-- rendezvous channel (`buffer_size = 0`) -/
+example : (brun (BufState.init 0 2) [.pull, .send, .pull, .send, .pull, .close]).map
+    (fun s => (s.recvd, s.closed, s.pulled)) = some ([0, 1], true, 2) := by decide
+/-- drop while the producer holds an item: its send fails and it exits without pulling again -/
+example : (brun (BufState.init 1 5) [.pull, .send, .pull, .drop, .send]).map
+    (fun s => (s.dropped, s.pulled, decide (s.pc = .exited))) = some (true, 2, true) := by decide
+
+/-- drop while worker 0 is about to send and worker 1 is spinning: both exit, nothing further is taken -/
+example : (prun (PState.init 2 5)
+    [.take 0, .take 1, .compute 0, .compute 1, .spin 0, .drop, .send 0, .spin 1, .advance 0, .spin 1, .send 1,
+     .advance 1]).map
+    (fun s => (s.dropped, s.next, allExited s)) = some (true, 2, true) := by decide
+
 end Tu.C09
